@@ -295,6 +295,11 @@ func (s *stream) Rebalance() {
 
 	if !s.balancing {
 		s.balancing = true
+
+		if s.config.Checkpoint.Type == CheckpointTypeAuto {
+			s.checkpoint.Save()
+		}
+
 		s.Close(false)
 	}
 
